@@ -240,6 +240,72 @@ class FA:
                 return out
         return [self._literal(t, node_id, positive)]
 
+    def _alts(self, test, node_id, positive: bool, _depth: int = 0):
+        """The ways a branch test can come out with the given polarity, as alternative conjunctions of literals:
+        a conjunction taken true / a disjunction taken false is one conjunction of its parts (the cross product of
+        their alternatives); a disjunction taken true / a conjunction taken false is split in short-circuit order
+        (`a or b` true = a, or not a and b); a conditional expression `x if c else y` is (c and x) or (not c and y).
+        Falls back to the single-conjunction reading of `_atoms` when the product grows too large."""
+        import os as _os
+        if _os.environ.get("FA_SPLIT", "1") == "0" or _depth > 6:
+            return [self._atoms(test, node_id, positive)]
+        t = test
+        if isinstance(t, ast.Name):
+            try:
+                e = self.expand(t, node_id)
+            except AnalysisError:
+                e = t
+            if not isinstance(e, ast.Name) and isinstance(e, (ast.Compare, ast.BoolOp, ast.UnaryOp, ast.IfExp)):
+                for x_ in ast.walk(e):
+                    x_._no_expand = True
+                return self._alts(e, node_id, positive, _depth + 1)
+        if isinstance(t, ast.UnaryOp) and isinstance(t.op, ast.Not):
+            return self._alts(t.operand, node_id, not positive, _depth + 1)
+        if isinstance(t, ast.IfExp):
+            out = []
+            for c_alt in self._alts(t.test, node_id, True, _depth + 1):
+                for b_alt in self._alts(t.body, node_id, positive, _depth + 1):
+                    out.append(c_alt + [l for l in b_alt if l not in c_alt])
+            for c_alt in self._alts(t.test, node_id, False, _depth + 1):
+                for b_alt in self._alts(t.orelse, node_id, positive, _depth + 1):
+                    out.append(c_alt + [l for l in b_alt if l not in c_alt])
+            return self._consistent(out) if len(out) <= 16 else [self._atoms(test, node_id, positive)]
+        if isinstance(t, ast.BoolOp):
+            conj = (isinstance(t.op, ast.And) and positive) or (isinstance(t.op, ast.Or) and not positive)
+            if conj:
+                acc = [[]]
+                for v in t.values:
+                    nxt = []
+                    for a in acc:
+                        for b in self._alts(v, node_id, positive, _depth + 1):
+                            nxt.append(a + [l for l in b if l not in a])
+                    acc = nxt
+                    if len(acc) > 16:
+                        return [self._atoms(test, node_id, positive)]
+                return self._consistent(acc)
+            # short-circuit alternatives: the k-th operand decides after the earlier ones came out the other way
+            out = []
+            prefix = [[]]
+            for v in t.values:
+                for pre in prefix:
+                    for b in self._alts(v, node_id, positive, _depth + 1):
+                        out.append(pre + [l for l in b if l not in pre])
+                nxt = []
+                for pre in prefix:
+                    for b in self._alts(v, node_id, not positive, _depth + 1):
+                        nxt.append(pre + [l for l in b if l not in pre])
+                prefix = nxt
+                if len(out) > 16 or len(prefix) > 16:
+                    return [self._atoms(test, node_id, positive)]
+            return self._consistent(out)
+        return [[self._literal(t, node_id, positive)]]
+
+    @staticmethod
+    def _consistent(alts):
+        """Drop alternatives that contain a literal and its negation."""
+        out = [a for a in alts if not any((l[0], not l[1]) in a for l in a)]
+        return out if out else alts
+
     def _literal(self, t, node_id, positive):
         """Canonical text of one literal: locals expanded, `x is not None` as the negation of `x is None`,
         `a != b` as the negation of `a == b`, `a not in b` of `a in b`, operands of == sorted."""
@@ -279,15 +345,16 @@ class FA:
             for (d, l) in cfg.succ[n]:
                 if d in onpath:
                     continue
-                add = []
+                adds = [[]]
                 nd = cfg.node(n)
                 if nd.kind == "test" and l in ("T", "F") and not isinstance(self.pm.get(nd.ast), ast.While):
-                    add = self._atoms(nd.ast, n, l == "T")
-                # contradictory literal: infeasible path
-                if any((a[0], not a[1]) in lits for a in add):
-                    continue
+                    adds = self._alts(nd.ast, n, l == "T")
                 onpath.add(d)
-                dfs(d, onpath, lits + [a for a in add if a not in lits])
+                for add in adds:
+                    # contradictory literal: infeasible path
+                    if any((a[0], not a[1]) in lits for a in add):
+                        continue
+                    dfs(d, onpath, lits + [a for a in add if a not in lits])
                 onpath.discard(d)
 
         dfs(cfg.entry, {cfg.entry}, [])
@@ -377,13 +444,14 @@ class FA:
             for (d, l) in cfg.succ[n]:
                 if d in onpath or l == "exc":
                     continue
-                add = []
+                adds = [[]]
                 if nd.kind == "test" and l in ("T", "F") and not isinstance(fa.pm.get(nd.ast), ast.While):
-                    add = fa._atoms(nd.ast, n, l == "T")
-                if any((a[0], not a[1]) in lits for a in add):
-                    continue
+                    adds = fa._alts(nd.ast, n, l == "T")
                 onpath.add(d)
-                dfs(d, onpath, lits + [a for a in add if a not in lits], last)
+                for add in adds:
+                    if any((a[0], not a[1]) in lits for a in add):
+                        continue
+                    dfs(d, onpath, lits + [a for a in add if a not in lits], last)
                 onpath.discard(d)
 
         dfs(cfg.entry, {cfg.entry}, [], None)
